@@ -86,7 +86,7 @@ def floors(tier):
             "re:.*@ElseIf\\.L\\.F": 100, "spelling:direct": 5, "spelling:from": 5,
             "tag:fpred": 5, "tag:cpred": 5, "tag:hastype": 3, "tag:neg>=2": 20, "tag:truth": 20, "tag:in": 20,
             "tag:has": 20, "re:tag:neg:cmp.*": 60, "domain_kind:E": 100, "domain_kind:Q": 300,
-            "domain:empty": 100, "shape:wide_and": 60, "shape:wide_or": 60, "shape:deep_not": 60, "shape:deep_chain": 60, "domain:other": 100, "consumed_inside_symbolic_block": 500}
+            "domain:empty": 100, "abandoned_iterator_kept_alive": 500, "shape:wide_and": 60, "shape:wide_or": 60, "shape:deep_not": 60, "shape:deep_chain": 60, "shape:domain_of_more_than_1000_objects": 4, "domain:other": 100, "consumed_inside_symbolic_block": 500}
 
 
 def cases(spec, ctx):
@@ -99,6 +99,15 @@ def cases(spec, ctx):
         # very wide and very deep conditions: and_/or_ with 8-30 operands, 6-14 nested negations, right-deep chains of 8-16
         # alternating connectives
         o = dict(C.DEFAULT_OPTS)
+        if spec["sub"] % 4 == 0:
+            # one very long domain (more than a thousand qualifying objects pass one operator), evaluated twice
+            rng = ctx.rng("h", spec["sub"])
+            n = rng.randint(1300, 1450)      # about 7 in 8 satisfy the second operand: well over a thousand go through its cache
+            world = {"P": [{"a": rng.randint(1, 3), "b": rng.randint(1, 8)} for _ in range(n)], "Q": []}
+            cond = ["and", ["cmp", ">=", ["v", 0, [["a", "a"]]], ["lit", 1]], ["cmp", rng.choice([">", "!="]), ["v", 0, [["a", "b"]]], ["lit", 1]]]
+            yield {"k": "rand", "shape": "domain_of_more_than_1000_objects", "world": world, "kind": "P", "cond": cond, "form": "entity",
+                   "how": "let", "quant": "an", "split": False, "times": 2, "caching": True, "take_first": 0, "in_block": False,
+                   "dom_mode": "normal"}
         for i in range(spec["n"]):
             rng = ctx.rng("w", spec["sub"], i)
             kind = rng.choice(["P", "Q"])
@@ -135,7 +144,7 @@ def cases(spec, ctx):
         yield {"k": "rand", "world": world, "kind": kind, "cond": cond, "form": form,
                "how": rng.choice(["let", "let", "from"]), "quant": rng.choice(["an", "an", "a"]),
                "split": rng.random() < 0.3, "times": rng.choice([1, 2, 3]), "caching": rng.random() < 0.8,
-               "take_first": rng.choice([0, 0, 0, 1, 2]), "in_block": rng.random() < 0.15,
+               "take_first": rng.choice([0, 0, 0, 1, 2]), "keep_first": rng.random() < 0.4, "in_block": rng.random() < 0.15,
                "dom_mode": rng.choice(["empty", "other"]) if rng.random() < 0.06 else "normal"}
 
 
@@ -169,11 +178,13 @@ def check_case(case, ctx):
     ctx.cls(f"evaluations_of_the_same_query:{times}")
     if case.get("take_first"):
         ctx.cls("preceded_by_an_abandoned_evaluation")
+        if case.get("keep_first"):
+            ctx.cls("abandoned_iterator_kept_alive")
     try:
         gots = H.run_an(world, [kind], cond, [0], form=case.get("form", "entity"), how=case.get("how", "let"),
                         quant=case.get("quant", "an"), split_top_and=case.get("split", False), times=times,
                         caching=case.get("caching", True), take_first=case.get("take_first", 0),
-                        consume_in_block=case.get("in_block", False))
+                        consume_in_block=case.get("in_block", False), keep_first=case.get("keep_first", False))
     except Exception as e:
         ctx.fail("EXC", f"{type(e).__name__}: {e}", expected=exp)
         return
